@@ -1535,9 +1535,21 @@ fn parse_enum_body(
 
         if let Some(token) = tokens.peek() {
             if token.text == "," {
-                variant.comma = Some(token.position);
+                variant.comma = Some(token.position.clone());
                 variants.push(variant);
                 tokens.pop();
+
+                // A trailing comma at the end of the file: stop,
+                // rather than parsing the comma again forever.
+                if tokens.is_empty() {
+                    diagnostics.push(ParseError::Incomplete {
+                        position: token.position,
+                        message: ErrorMessage(vec![msgtext!(
+                            "Expected a variant or `}}` after this, but reached the end of the file."
+                        )]),
+                    });
+                    break;
+                }
             } else if token.text == "}" {
                 variants.push(variant);
                 break;
@@ -1834,6 +1846,20 @@ fn parse_type_arguments(
             if token.text == ">" {
                 break token.position;
             }
+        } else {
+            // The file ends inside the type arguments. Stop, rather
+            // than parsing the previous token as a type again.
+            let position = match tokens.prev() {
+                Some(prev_token) => prev_token.position.clone(),
+                None => Position::todo(&tokens.vfs_path),
+            };
+            diagnostics.push(ParseError::Incomplete {
+                position: position.clone(),
+                message: ErrorMessage(vec![msgtext!(
+                    "Expected a type after this, but reached the end of the file."
+                )]),
+            });
+            break position;
         }
         let arg = parse_type_hint(tokens, id_gen, diagnostics);
         let arg_pos = arg.position.clone();
